@@ -16,7 +16,7 @@ from ..ref import formula as F
 
 ID = 'C11'
 LEVEL = 'exploration'
-BUDGET_S = {'quick': 150, 'thorough': 1500}
+BUDGET_S = {'quick': 300, 'thorough': 1500}
 RELATION = 'independent-fold'
 RULE = ('one workbook per case: a generated cell block and up to 10 aggregate formulas over generated argument lists; '
         'non-trivial = the arguments contain >= 2 areas or an area of >= 2x2 cells, at least one ignored kind '
